@@ -186,6 +186,8 @@ pub fn c02(ctx: &Ctx, rep: &mut Report) {
 }
 
 pub fn c03(ctx: &Ctx, rep: &mut Report) {
+    crate::unit::heap_unit(ctx, rep);
+    crate::unit::active_unit(ctx, rep);
     rep.rule = "tie-saturated and generic valid cases; oracle: replay of the returned steps with naive Lance-Williams, merged pair must be a minimum over live pairs".into();
     let mut rng = Rng::new(ctx.seed);
     let cases = gen_cases(
@@ -881,6 +883,8 @@ pub fn c11(ctx: &Ctx, rep: &mut Report) {
 // ---------------------------------------------------------------------------
 
 pub fn c12(ctx: &Ctx, rep: &mut Report) {
+    crate::unit::heap_unit(ctx, rep);
+    crate::unit::active_unit(ctx, rep);
     rep.rule = "valid finite matrices in the safe magnitude range incl. tie-saturated, all-zero, negative, 1e+-150, duplicate and collinear points; n from 0; this binary's build profile is recorded in checked_build; oracle: returns normally within the polynomial watchdog, heights finite, >= 0 for non-negative inputs".into();
     let mut rng = Rng::new(ctx.seed);
     let cases = gen_cases(
